@@ -180,7 +180,10 @@ def ser_problems(r):
                 din, dout = sm["input_data"]["sha256"], sm["output_data"]["sha256"]
                 cpre, cpost = sm["pre_context"]["sha256"], sm["post_context"]["sha256"]
             except KeyError:
-                out.append(("C07:ser:summaries:digest-missing-with-hash-detail", kind))
+                # a context holding a value no digest is defined for (a lock, a generator, a 5000-digit integer): a SER that
+                # leaves the digest out says nothing false; what it does say is still checked
+                if not str(r.case.get("kind", "")).startswith("unusual-value"):
+                    out.append(("C07:ser:summaries:digest-missing-with-hash-detail", kind))
                 continue
             if i + 1 < len(sers) and s.get("status") == "succeeded":
                 nx = sers[i + 1].get("summaries") or {}
@@ -191,7 +194,11 @@ def ser_problems(r):
             for tag, dig, val in (("d", din, e["data_pre"]), ("d", dout, e["data_post"])):
                 by_content.setdefault((tag, _raw_data_key(val)), set()).add(dig)
             for tag, dig, val in (("c", cpre, pre), ("c", cpost, post)):
-                by_content.setdefault((tag, _raw_ctx_key(val)), set()).add(dig)
+                try:
+                    key = _raw_ctx_key(val)
+                except Exception:  # noqa - a context the harness cannot render either (tuple keys, huge integers): no content key
+                    continue
+                by_content.setdefault((tag, key), set()).add(dig)
     for key, digs in by_content.items():
         if len(digs) > 1:
             out.append(("C07:ser:digest:equal-content-different-digest", "%s" % (key,)))
@@ -265,6 +272,9 @@ def run(ck):
         cases.append({"nodes": c["nodes"], "data0": c["data0"], "ctx0": dict(c["ctx0"], **{k: specials[k]}), "kind": "none", "index": None})
     # failing runs too (error SERs must be truthful as well)
     cases += tl.failure_cases(rng, 12 if thorough else 4, stats, maxlen=5)
+    # unusual but legal context values (a lock, a generator, a 0-d array, ...): what the SERs say about the nodes around them
+    # must stay true (direct oracle; the harness' own log snapshots by reference and never copies values)
+    cases += tl.unusual_value_cases(10 if thorough else 6)
     combos = [(d, m) for d in tl.DETAILS for m in tl.MODES]
     texts, kept, reported = [], [], {}
     counts = collections.Counter()
@@ -279,8 +289,8 @@ def run(ck):
             runs += 1
             counts["outcome:" + r.outcome[0]] += 1
             counts["detail:" + detail] += 1
-            if r.outcome[0] == "unsupported":
-                continue
+            if r.outcome[0] == "unsupported" and not c.get("direct_only"):
+                continue     # (a direct-only case holds values the model cannot name: the direct oracles still judge its trace)
             n_sers = sum(1 for x in r.records if x.get("record_type") == "ser")
             sers_checked += n_sers
             for e in r.log.entries:
@@ -296,6 +306,7 @@ def run(ck):
             except pg.Unsupported as u:
                 counts["not-in-model:" + str(u)[:40]] += 1
     runs += unusual_value_oracle(ck)
+    runs += scripted_clock_oracle(ck)
     bad, errs = tl.evaluate("C07", texts)
     for k, rc, out in errs:
         ck.corr_problem("correspondence shard %d did not evaluate (rc=%s)" % (k, rc), out)
@@ -349,6 +360,81 @@ def run(ck):
     ck.notes["generator_distribution"] = dict(sorted(stats.items()))
     ck.cov["trusted_base"] = TRUSTED
     ck.log("runs %d, SERs %d, compared in Coq %d (disagreements %d), findings %s" % (runs, sers_checked, len(texts), len(bad), sorted(reported)))
+
+
+def scripted_clock_oracle(ck):
+    """The two timestamp functions under a scripted wall clock: instants at both ends of a millisecond and of a second
+    (microsecond 0, 1, 499, 500, 999, 499500, 999499, 999500, 999999).  Every timestamp is well-formed RFC 3339 (three
+    fractional digits, literal Z), denotes an instant within one millisecond of the clock, and the sequence is monotone.
+    Every module of the package that holds the name `datetime` (class or module) sees the scripted clock."""
+    import datetime as real_dt
+    import re
+    import sys as _sys
+    import tempfile
+    from semantiva.execution.orchestrator.orchestrator import LocalSemantivaOrchestrator
+    from semantiva.trace.drivers.jsonl import JsonlTraceDriver
+    now = [0.0]
+
+    class ScriptedDT(real_dt.datetime):
+        @classmethod
+        def now(cls, tz=None):
+            return real_dt.datetime.fromtimestamp(now[0], tz) if tz is not None else real_dt.datetime.fromtimestamp(now[0])
+
+        @classmethod
+        def utcnow(cls):
+            return real_dt.datetime.fromtimestamp(now[0], real_dt.timezone.utc).replace(tzinfo=None)
+
+    class ShimModule:
+        datetime, timezone, timedelta, date, time = ScriptedDT, real_dt.timezone, real_dt.timedelta, real_dt.date, real_dt.time
+
+        def __getattr__(self, name):
+            return getattr(real_dt, name)
+
+    patched = []
+    for mname, mod in list(_sys.modules.items()):
+        if not mname.startswith("semantiva") or mod is None:
+            continue
+        d = getattr(mod, "__dict__", {})
+        if d.get("datetime") is real_dt.datetime:
+            patched.append((mod, "datetime", d["datetime"]))
+            setattr(mod, "datetime", ScriptedDT)
+        elif d.get("datetime") is real_dt:
+            patched.append((mod, "datetime", d["datetime"]))
+            setattr(mod, "datetime", ShimModule())
+    n = 0
+    bad = []
+    try:
+        orch = LocalSemantivaOrchestrator()
+        drv = JsonlTraceDriver(os.path.join(tempfile.gettempdir(), "verif_unused_clock.jsonl"))
+        fns = [("orchestrator._iso_now", orch._iso_now), ("driver._now_timestamp", drv._now_timestamp)]
+        base = 1700000033
+        instants = [base + k + us / 1e6 for k in range(3) for us in (0, 1, 499, 500, 999, 499500, 999499, 999500, 999999)]
+        for fname, fn in fns:
+            prev = None
+            for t in instants:
+                now[0] = t
+                s_ = fn()
+                n += 1
+                den = tl.rfc3339_to_epoch(s_) if isinstance(s_, str) and re.fullmatch(r"\d{4}-\d\d-\d\dT\d\d:\d\d:\d\d\.\d{3}Z", s_) else None
+                if den is None:
+                    bad.append((fname, t, s_, "not RFC 3339 with three fractional digits and Z"))
+                elif abs(den - t) > 0.0011:
+                    bad.append((fname, t, s_, "denotes an instant %.4f s away from the clock" % (den - t)))
+                elif prev is not None and den < prev:
+                    bad.append((fname, t, s_, "earlier than the previous timestamp"))
+                prev = den if den is not None else prev
+    except Exception as ex:  # noqa
+        ck.corr_problem("scripted-clock oracle could not run", repr(ex)[:300])
+    finally:
+        for mod, name, old in patched:
+            setattr(mod, name, old)
+    if not patched:
+        ck.corr_problem("scripted-clock oracle: no module of the package holds the name `datetime` any more (the timestamp functions could not be put on a scripted clock)", "")
+    for fname, t, s_, why in bad[:2]:
+        ck.fail_input("C07:timestamp:wrong-under-scripted-clock:" + fname,
+                      "%s at clock %.6f (microsecond %d) returns %r: %s" % (fname, t, int(round((t % 1) * 1e6)), s_, why),
+                      {"kind": "scripted-clock", "function": fname, "clock": t, "timestamp": s_})
+    return n
 
 
 def unusual_value_oracle(ck):
